@@ -179,7 +179,7 @@ fn nth_function(n: usize, mut k: usize) -> Vec<usize> {
 
 pub fn run(env: &Env) -> Rec {
     let mut rec = Rec::new();
-    let max_n = if env.quick() { 5 } else { 7 };
+    let max_n = if env.quick() { 6 } else { 7 };
     for n in 1..=max_n as usize {
         let total = (n as usize + 1).pow(n as u32);
         let per = 2000usize;
